@@ -123,6 +123,11 @@ func (x *Exec) enterBlock(st *State, fr *Frame, b *ssa.BasicBlock) bool {
 	if c != nil {
 		spec = c.Loops[ord]
 	}
+	if st.cut[b] && st.prevBlock != nil && st.prevBlock.Parent() == b.Parent() && !li.body[b][st.prevBlock] {
+		// the loop is entered again from outside on the same path (e.g. an inlined callee
+		// called twice): this is a new loop entry, not a back edge
+		delete(st.cut, b)
+	}
 	if st.cut[b] {
 		// back edge: the invariant must be re-established
 		if x.dry > 0 {
@@ -303,7 +308,17 @@ func stableTerm(s string, mark int) bool {
 }
 
 func (x *Exec) havocRec(st *State, rec *modRecorder, stable map[string][]T) {
+	var cellList []*ssa.Alloc
 	for a := range rec.cells {
+		cellList = append(cellList, a)
+	}
+	sort.Slice(cellList, func(i, j int) bool {
+		if cellList[i].Pos() != cellList[j].Pos() {
+			return cellList[i].Pos() < cellList[j].Pos()
+		}
+		return cellList[i].Name()+cellList[i].Comment < cellList[j].Name()+cellList[j].Comment
+	})
+	for _, a := range cellList {
 		t := deref(a.Type())
 		nv := fresh("h "+a.Comment, sortOf(t))
 		st.assume(typingFact(t, nv))
@@ -329,10 +344,15 @@ func (x *Exec) havocRec(st *State, rec *modRecorder, stable map[string][]T) {
 		st.heaps[n] = fresh(n, sort)
 		st.modHeaps[n] = true
 	}
-	for g, srt := range rec.ghosts {
-		st.ghost[g] = fresh("ghost "+g, srt)
+	for _, g := range sortedKeys(rec.ghosts) {
+		st.ghost[g] = fresh("ghost "+g, rec.ghosts[g])
 	}
+	var globList []*ssa.Global
 	for g := range rec.globals {
+		globList = append(globList, g)
+	}
+	sort.Slice(globList, func(i, j int) bool { return globList[i].String() < globList[j].String() })
+	for _, g := range globList {
 		t := deref(g.Type())
 		nv := fresh("G "+g.Name(), sortOf(t))
 		st.assume(typingFact(t, nv))
